@@ -135,6 +135,10 @@ def run_cases_for(g, rnd, maxlen, nrand, span_maxlen):
         for s in ins:
             for entry in ("parse_partial", "check_partial", "parse", "check"):
                 cases.append((g["gid"], rule, entry, "str", 0, 0, s))
+            if rule in ("WHITESPACE", "COMMENT") and len(s) > span_maxlen:
+                # C04's independent trailing-skip computation needs the skip rules at every offset
+                for a in corpus.boundaries(s)[1:]:
+                    cases.append((g["gid"], rule, "parse_partial", "pos", a, 0, s))
             if len(s) <= span_maxlen:
                 bs = corpus.boundaries(s)
                 for a in bs:
@@ -180,10 +184,43 @@ def suite_run(tier, seed):
     impl = run_bins("b", where, cases)
     model = run_driver(sexp, cases)
     meta = {"suite": "run", "tier": tier, "seed": seed, "wall_s": time.time() - t0,
-            "grammars": {g["gid"]: {"text": g["text"], "rules": g["rules"], "uses_stack": g["uses_stack"]} for g in ok},
+            "grammars": {g["gid"]: {"text": g["text"], "rules": g["rules"], "uses_stack": g["uses_stack"], "sexp": g["sexp"]} for g in ok},
             "rejected": [{"gid": g["gid"], "why": g["reject"][:200]} for g in bad]}
     _store(d, meta, cases, impl, model)
     _gc_cache(12)
+    return SuiteResult(d)
+
+
+def suite_run_release(tier, seed):
+    """The same protocol on a release build (unchecked slicing): multi-byte heavy part of the corpus."""
+    d = _cache_dir("runrel", tier, seed)
+    if os.path.exists(os.path.join(d, "meta.json")):
+        return SuiteResult(d)
+    t0 = time.time()
+    ensure_driver()
+    gs = [g for g in corpus.systematic_grammars() if not g["gid"].startswith("s_kinds")]
+    gs += corpus.random_grammars(seed + 1, 8 if tier == "quick" else 64, modes=("multibyte", "multibyte", "stacky", "plain"))
+    ok, bad = corpus.validate(gs)
+    ws = os.path.join(BUILD, f"ws_runrel_{tier}")
+    where = corpus.emit_workspace(ok, ws, NBINS, with_pest=False)
+    rc, err = corpus.build_workspace(ws, release=True)
+    if rc != 0:
+        raise RuntimeError("release corpus workspace does not build:\n" + err[-4000:])
+    os.makedirs(CACHE, exist_ok=True)
+    sexp = d + ".sexp"
+    open(sexp, "w").write("\n".join(g["sexp"] for g in ok) + "\n")
+    rnd = random.Random(seed + 1)
+    cases = []
+    for g in ok:
+        g = dict(g)
+        g["alphabet"] = list(g["alphabet"])[:3] + [c for c in ("é", "中", "\U0001F600") if c not in g["alphabet"]][:2]
+        cases += run_cases_for(g, rnd, 3 if tier == "quick" else 4, 20, 3)
+    impl = run_bins("b", where, cases, profile="release")
+    model = run_driver(sexp, cases)
+    meta = {"suite": "runrel", "tier": tier, "seed": seed, "wall_s": time.time() - t0,
+            "grammars": {g["gid"]: {"text": g["text"], "rules": g["rules"], "uses_stack": g["uses_stack"], "sexp": g["sexp"]} for g in ok},
+            "rejected": [{"gid": g["gid"], "why": g["reject"][:200]} for g in bad]}
+    _store(d, meta, cases, impl, model)
     return SuiteResult(d)
 
 
